@@ -82,6 +82,7 @@ CONCUR_MON = {
     'C06': ('C06_Commits', 'C06_AtMostOne', 'ErrorJustified:cons', 'Escaped'),
     'C07': ('C07_Serializable', 'FinalInvariants', 'Escaped'),
     'C10': ('C10_Monotone',),
+    'C08': ('C08_FinalRefIntegrity', 'Escaped'),
 }
 
 FAULT = {
@@ -195,6 +196,12 @@ def run_seq(prop, tier, seed, model=True):
             else:
                 violations.append((bad, why, sig))
     extra_cov = {}
+    if prop == 'C08':
+        # removals racing with requests that start to use what is removed
+        v2, k2, n2 = concur_supplement('C08', 'C08', tier, seed)
+        violations.extend(v2)
+        known.extend(k2)
+        extra_cov['interleavings_of_removals_with_new_uses'] = n2
     if prop == 'C10':
         # generations never decrease: also on every commit of racing requests
         v2, k2, n2 = concur_supplement('C10', 'C06', tier, seed)
@@ -543,11 +550,19 @@ def run_cand(prop, tier, seed, model=True):
     seeds = [rnd.randrange(1 << 30) for _ in range(cfg['states'])]
     nw = 12 if tier == 'quick' else 14
     jobs = []
+    fam = []
+    if prop in ('C03', 'C02'):
+        allf = list(range(cand.family_size()))
+        if tier == 'quick':
+            rnd.shuffle(allf)
+            allf = allf[:18] if prop == 'C03' else allf[:6]
+        fam = allf
     for w in range(nw):
         ss = seeds[w::nw]
-        if ss:
+        ff = fam[w::nw]
+        if ss or ff:
             j = dict(cfg)
-            j.update({'mode': prop, 'seeds': ss})
+            j.update({'mode': prop, 'seeds': ss, 'family': ff})
             jobs.append(j)
     models = []
     if model:
